@@ -60,6 +60,8 @@ CONFIGS = {
                        "tlsh/opt-low-memory-buckets tlsh/opt-low-memory-hex-str-decode-min-table "
                        "tlsh/opt-low-memory-hex-str-encode-half-table", rustflags="-C target-feature=+sse4.1"),
     "strict": dict(feat="easy std strict tlsh/opt-default tlsh/simd tlsh/detect-features"),
+    # the strict parser without any SIMD / table option: the pair (strict, strict-naive) must agree byte for byte (C07)
+    "strict-naive": dict(feat=NAIVE + " strict"),
     "serde": dict(feat="easy std serde tlsh/opt-default tlsh/simd tlsh/detect-features"),
     "serde-strict": dict(feat="easy std serde strict tlsh/opt-default tlsh/simd tlsh/detect-features"),
     "serde-buffered-strict": dict(feat="easy std serde strict tlsh/serde-buffered tlsh/opt-default tlsh/simd tlsh/detect-features"),
